@@ -18,7 +18,10 @@ type srcGen struct {
 }
 
 func (g *srcGen) pick(xs ...string) string { return xs[g.r.Intn(len(xs))] }
-func (g *srcGen) id() string               { g.n++; return fmt.Sprintf("%s%d", g.pick("a", "b", "x", "T", "Val", "fn"), g.n) }
+func (g *srcGen) id() string {
+	g.n++
+	return fmt.Sprintf("%s%d", g.pick("a", "b", "x", "T", "Val", "fn"), g.n)
+}
 
 func (g *srcGen) typ(d int) string {
 	if d <= 0 {
